@@ -90,6 +90,9 @@ def run_nexts(rule, k, ops):
         except Deadlock:
             out.append("D")
             break
+        except Exception as ex:          # an exception escaping next() is itself an observation
+            out.append("E:" + type(ex).__name__)
+            break
     return out, got, stopped, lock.held
 
 
